@@ -23,7 +23,7 @@ Inv == R.kind = "text" =>
          LET e == Expected(R.s) IN
          /\ R.terminated                                           \* no text makes the parser hang
          /\ (Exotic(R.s) \/ R.accepted = e.ok)                     \* accepted iff a sentence under the documented tokenisation
-         /\ ((R.accepted /\ e.ok) => NormItems(R.items) = NormItems(e.items))   \* the tree lists exactly what was written, in order
+         /\ ((R.accepted /\ e.ok /\ ~Exotic(R.s)) => NormItems(R.items) = NormItems(e.items))   \* the tree lists exactly what was written, in order
          /\ (~R.accepted => R.exit # 0 /\ R.stderrLen > 0)         \* anything else is rejected with an error (what else a failing run prints is C09's business)
 \* long texts: k repetitions of a sentence (each a complete piece: the language is a list and the lexer modes are back at
 \* their start after a complete sentence and a newline, which ends a trailing comment -- LexerMC) followed by a suffix: accepted iff sentence + suffix is, with
@@ -32,8 +32,8 @@ LongInv == R.kind = "long" =>
              LET b == Expected(R.base)  e == Expected(R.base \o <<10>> \o R.suffix) IN
              /\ b.ok                                     \* (the driver repeats a sentence)
              /\ R.terminated
-             /\ R.accepted = e.ok
-             /\ (R.accepted => R.nitems = (R.reps - 1) * Len(b.items) + Len(e.items))
+             /\ (Exotic(R.base \o R.suffix) \/ R.accepted = e.ok)
+             /\ (R.accepted /\ ~Exotic(R.base \o R.suffix) => R.nitems = (R.reps - 1) * Len(b.items) + Len(e.items))
              /\ (~R.accepted => R.stderrLen > 0)
 \* "The parser shipped is the one goyacc generates from that grammar file": the driver regenerated the parser with the
 \* goyacc the module pins and compared Go token sequences.  Where goyacc cannot be run the record claims nothing
